@@ -53,7 +53,11 @@ q, t = tiers(250, 60, 20000, 1200)
 plan("C02", "exploration", HIST_RULE.format(kind="proposal", unit="slot", extra="proposer and foreign domains", strict=" (same slot/different block; in sequential histories slots must strictly increase in release order)"), q, t)
 
 q, t = tiers(120, 60, 6000, 1200)
-q["require_probes"] = ["crash_exact", "probe_crash_between_approval_and_signing", "sign_seam_checks", "ack_durability_checks"]
+def c03_layers(runs, kill_runs, power_runs, budget):
+    return [dict(runs=runs, budget_s=budget, params="")] * 12 + [dict(runs=kill_runs, budget_s=budget, params="mode=kill")] * 2 + [dict(runs=power_runs, budget_s=budget, params="mode=power")] * 2
+q["layers"] = c03_layers(120, 64, 12, 60)
+t["layers"] = c03_layers(6000, 3200, 600, 1200)
+q["require_probes"] = ["crash_exact", "probe_crash_between_approval_and_signing", "sign_seam_checks", "ack_durability_checks", "crash_real_process_kill", "crash_power_loss_images"]
 t["require_probes"] = q["require_probes"] + ["crash_torn", "crash_after-write", "probe_crash_before_store", "probe_crash_between_store_and_approval", "sign_seam_image_checks"]
 plan("C03", "exploration",
      "one case = one seeded run: 1-4 phases of 1-5 concurrent conflict-seeking attestation/proposal requests (single and batched) under the seeded scheduler, "
